@@ -123,7 +123,8 @@ META.update({
     "C14": {
         "text": "MapOps.tla: CutOne with UniqueBin and OpenBoundsTotal, and the sorted-unique look-ahead machine against run "
                 "ends (UniqRefines, never a null index), checked by TLC over every ascending edge vector, label count, flag "
-                "combination and grouped series." + ENUM,
+                "combination and grouped series, and every order of values (binning is positional); CutProof.tla proves "
+                "UniqueBin / OutsideNoBin / InsideHasBin for ascending edge vectors of ANY length with the TLA+ proof system." + ENUM,
         "note": NOTE + " Null-capable label types only (DESIGN 5.8).",
         "design": "DESIGN.md section 6 C14",
     },
